@@ -4,6 +4,7 @@ import (
 	"bytes"
 	"context"
 	"fmt"
+	stdhttp "net/http"
 	"runtime/debug"
 	"strings"
 	"sync"
@@ -14,8 +15,10 @@ import (
 	"github.com/cloudwego/dynamicgo/conv/j2t"
 	"github.com/cloudwego/dynamicgo/conv/p2j"
 	"github.com/cloudwego/dynamicgo/conv/t2j"
-	dproto "github.com/cloudwego/dynamicgo/proto"
+	dhttp "github.com/cloudwego/dynamicgo/http"
 	"github.com/cloudwego/dynamicgo/meta"
+	dproto "github.com/cloudwego/dynamicgo/proto"
+	pgeneric "github.com/cloudwego/dynamicgo/proto/generic"
 	"github.com/cloudwego/dynamicgo/thrift"
 	"github.com/cloudwego/dynamicgo/thrift/generic"
 	"google.golang.org/protobuf/proto"
@@ -46,10 +49,12 @@ const (
 	opPRound
 	opJ2PBad
 	opP2JBad
+	opJ2THTTP
+	opPGeneric
 	nOps
 )
 
-var opNames = []string{"t2j", "j2t", "t2j-http", "t2j-truncated", "j2t-malformed", "dom-load-marshal", "cut", "get-by-path", "lookup", "p2j-j2p", "j2p-malformed", "p2j-truncated"}
+var opNames = []string{"t2j", "j2t", "t2j-http", "t2j-truncated", "j2t-malformed", "dom-load-marshal", "cut", "get-by-path", "lookup", "p2j-j2p", "j2p-malformed", "p2j-truncated", "j2t-http", "proto-generic"}
 
 type Op struct {
 	Kind int `json:"k"`
@@ -91,6 +96,8 @@ type env struct {
 	tj       t2j.BinaryConv
 	jt       j2t.BinaryConv
 	http     *t2j.HTTPConv
+	jhttp    *j2t.HTTPConv
+	msgCall  []byte // enc wrapped as the CALL message j2t.HTTPConv produces
 	pj       p2j.BinaryConv
 	jp       j2p.BinaryConv
 	pdesc    *dproto.TypeDescriptor
@@ -256,6 +263,43 @@ func (e *env) run(op Op, keep *[]held) (msg string) {
 		if out, err := e.jp.Do(ctx, e.pdesc, []byte(doc)); err == nil {
 			return fmt.Sprintf("j2p accepts the malformed document %s (%x)", doc, out)
 		}
+	case opJ2THTTP:
+		std, herr := stdhttp.NewRequest("POST", "http://example.com/call", bytes.NewReader(cs.Doc))
+		if herr != nil {
+			return "harness: " + herr.Error()
+		}
+		std.Header.Set("Content-Type", "application/json")
+		req, herr := dhttp.NewHTTPRequestFromStdReq(std)
+		if herr != nil {
+			return "harness: " + herr.Error()
+		}
+		out, err := e.jhttp.Do(ctx, req, conv.Options{})
+		if err != nil {
+			return "j2t HTTPConv.Do fails: " + err.Error()
+		}
+		*keep = append(*keep, held{"j2t http message", out, append([]byte(nil), out...)})
+		if !bytes.Equal(out, e.msgCall) {
+			return fmt.Sprintf("j2t HTTPConv.Do output differs from the wrapped reference encoding (%d vs %d bytes)", len(out), len(e.msgCall))
+		}
+	case opPGeneric:
+		in := append(make([]byte, 0, len(cs.Msg)+16), cs.Msg...)
+		v := pgeneric.NewRootValue(e.pdesc, in)
+		tree := pgeneric.PathNode{Node: v.Node}
+		if err := tree.Load(true, &pgeneric.Options{}, e.pdesc); err != nil {
+			return "proto Load fails: " + err.Error()
+		}
+		out, err := tree.Marshal(&pgeneric.Options{})
+		if err != nil {
+			return "proto Marshal fails: " + err.Error()
+		}
+		*keep = append(*keep, held{"proto Marshal result", out, append([]byte(nil), out...)})
+		m, uerr := pmodel.Unmarshal(e.md, out)
+		if uerr != nil || !proto.Equal(m, e.ref) {
+			return fmt.Sprintf("proto Marshal(Load(m)) differs from m (decode error %v)", uerr)
+		}
+		if !bytes.Equal(in, cs.Msg) {
+			return "proto generic reads modified their input"
+		}
 	case opP2JBad:
 		if len(cs.Msg) < 2 {
 			return ""
@@ -339,6 +383,11 @@ func check(c *pbt.Ctx, cs Case) {
 	e := &env{cs: cs, comp: comp, cut: cut, enc: tm.Encode(cs.V), tj: t2j.NewBinaryConv(conv.Options{}), jt: j2t.NewBinaryConv(conv.Options{}),
 		pj: p2j.NewBinaryConv(conv.Options{}), jp: j2p.NewBinaryConv(conv.Options{}), fieldRaw: map[int16][]byte{}}
 	e.http = t2j.NewHTTPConv(meta.EncodingThriftBinary, comp.Fn)
+	e.jhttp = j2t.NewHTTPConv(meta.EncodingThriftBinary, comp.Fn)
+	e.msgCall, err = thrift.WrapBinaryBody(e.enc, "Call", thrift.CALL, 1, 0)
+	if err != nil {
+		c.Failf("harness-wrap", "%v", err)
+	}
 	e.msgT, err = thrift.WrapBinaryBody(e.enc, "Call", thrift.REPLY, 0, 1)
 	if err != nil {
 		c.Failf("harness-wrap", "%v", err)
@@ -412,7 +461,7 @@ func check(c *pbt.Ctx, cs Case) {
 
 var Prop = pbt.Register(pbt.Prop[Case]{
 	Name: "TestSharedUse",
-	Rule: "generated Thrift descriptor + conforming message + JSON document, generated proto3 schema + message, and a drawn history: 1..8 goroutines, each with a drawn list of operations (t2j, j2t, t2j HTTPConv.Do, t2j on a truncated message, j2t on a truncated document, DOM Load+Marshal, MarshalTo, GetByPath, descriptor lookups, p2j+j2p, j2p on malformed documents incl. ones that fail while an unknown root member is skipped, p2j on a truncated message) sharing descriptors, converter objects and read-only inputs, in a -race binary; every successful operation is checked against the reference oracles (reference encoder, strict JSON reader, protobuf-go), failing inputs must fail, every result handed out is compared with its copy after all goroutines finished, inputs and descriptor dump must be unchanged; a data race reported by the race detector is a violation; non-trivial = >= 2 goroutines and >= 6 operations",
+	Rule: "generated Thrift descriptor + conforming message + JSON document, generated proto3 schema + message, and a drawn history: 1..8 goroutines, each with a drawn list of operations (t2j, j2t, t2j HTTPConv.Do, j2t HTTPConv.Do, proto DOM Load+Marshal, t2j on a truncated message, j2t on a truncated document, DOM Load+Marshal, MarshalTo, GetByPath, descriptor lookups, p2j+j2p, j2p on malformed documents incl. ones that fail while an unknown root member is skipped, p2j on a truncated message) sharing descriptors, converter objects and read-only inputs, in a -race binary; every successful operation is checked against the reference oracles (reference encoder, strict JSON reader, protobuf-go), failing inputs must fail, every result handed out is compared with its copy after all goroutines finished, inputs and descriptor dump must be unchanged; a data race reported by the race detector is a violation; non-trivial = >= 2 goroutines and >= 6 operations",
 	Gen: func(t *rapid.T) Case {
 		cfg := tm.GenCfg{MaxDepth: 2, KeyKinds: tjson.SupportedKeys, Reqs: true, Aliases: true, ValidUTF8: true, FiniteDoubles: true, RootStruct: true, WireOrder: true, MaxWidth: 4}
 		u := tm.GenUniverse(t, cfg)
